@@ -279,8 +279,10 @@ static int rtosc_print_range(const rtosc_arg_val_t* arg,
     }
 
     // loop over all args of the range
+    // the line can only be broken before the first arg if a separator
+    // (and not e.g. a '[' or the 'x' of "3x...") has been written before it
     char* last_sep = buffer - 1;
-    int args_written_this_line = (cols_used) ? 1 : 0;
+    int args_written_this_line = (*cols_used && isspace(*last_sep)) ? 1 : 0;
 
     for(int i = start; i < rtosc_arg_rep_num(val); ++i)
     {
@@ -649,8 +651,11 @@ size_t rtosc_print_arg_val(const rtosc_arg_val_t *arg,
             break;
         case 'a':
         {
+            // the line can only be broken before the array if a separator
+            // (and not e.g. a '[' or the 'x' of "3x[...]") precedes it
             char* last_sep = buffer - 1;
-            int args_written_this_line = (cols_used) ? 1 : 0;
+            int args_written_this_line =
+                (*cols_used && isspace(*last_sep)) ? 1 : 0;
             // range conversion (a variable length array must not have size 0)
             STACKALLOC(rtosc_arg_val_t, args_converted,
                        rtosc_arg_arr_len(val) ? rtosc_arg_arr_len(val) : 1);
